@@ -78,7 +78,7 @@ func runC46(c *eng.Ctx) {
 	add.AllPaths("R2", discard, eng.CondTest("dropped > 0"), eng.AnyExit)
 	add.Only("R2", dropped, "is guarded by `dropped > 0` only", func(l eng.Loc) bool {
 		gs := add.GuardsOf(l)
-		return len(gs) == 1 && gs[0] == "-1*dropped +1 < 0"
+		return len(gs) == 1 && gs[0] == "-1*dropped < 0"
 	})
 	add.Only("R2", dropped, "adds the number of alerts discarded", func(l eng.Loc) bool { a := eng.CallArgsText(l); return len(a) == 1 && a[0] == "float64(dropped)" })
 	add.Only("R2", discard, "discards exactly the excess d > 0", func(l eng.Loc) bool { return add.UnderCond(l, "d > 0") })
